@@ -234,3 +234,227 @@ Proof.
     repeat match goal with |- context [if ?c then _ else _] => let E := fresh "E" in destruct c eqn:E end;
       try apply Qle_refl; try (unfold Qle; cbn; lia).
 Qed.
+
+(* ------------------------------------------------------------------------------------------------ Stat blocks (modifier, stat) *)
+Definition stat_le (a b : Stat) : Prop := Forall (fun g : Stat -> Q => g a <= g b) Stat_fields.
+(* the region in which simaple's Stat addition is monotone: final damage >= -100 %, ignored defence <= 100 % *)
+Definition stat_ok (s : Stat) : Prop := -100 <= Stat_final_damage_multiplier s /\ Stat_ignored_defence s <= 100.
+
+Ltac split_forall H :=
+  repeat (let F := fresh "F" in pose proof (Forall_inv H) as F; cbn beta in F; apply Forall_inv_tail in H).
+
+Lemma stat_le_refl a : stat_le a a.
+Proof. unfold stat_le. apply Forall_forall. intros g _. apply Qle_refl. Qed.
+
+Lemma Stat_add_ok a b : stat_ok a -> stat_ok b -> stat_ok (Stat_add a b).
+Proof.
+  unfold stat_ok, Stat_add. cbn. intros [A1 A2] [B1 B2]. split.
+  - assert (0 <= (100 + Stat_final_damage_multiplier a) * (100 + Stat_final_damage_multiplier b)) by (apply Qmult_le_0_compat; lra). lra.
+  - assert (0 <= (100 - Stat_ignored_defence a) * (100 - Stat_ignored_defence b)) by (apply Qmult_le_0_compat; lra). lra.
+Qed.
+
+(* simaple.core.Stat.__add__ (generated Stat_add) is monotone in both arguments, field by field, inside that region *)
+Theorem Stat_add_le a a' b b' : stat_ok a -> stat_ok a' -> stat_ok b -> stat_ok b' ->
+  stat_le a a' -> stat_le b b' -> stat_le (Stat_add a b) (Stat_add a' b').
+Proof.
+  unfold stat_ok, stat_le. intros [A1 A2] [A1' A2'] [B1 B2] [B1' B2'] Ha Hb.
+  assert (Hfa : Stat_final_damage_multiplier a <= Stat_final_damage_multiplier a').
+  { rewrite Forall_forall in Ha. apply Ha. unfold Stat_fields. cbn [In]. tauto. }
+  assert (Hfb : Stat_final_damage_multiplier b <= Stat_final_damage_multiplier b').
+  { rewrite Forall_forall in Hb. apply Hb. unfold Stat_fields. cbn [In]. tauto. }
+  assert (Hia : Stat_ignored_defence a <= Stat_ignored_defence a').
+  { rewrite Forall_forall in Ha. apply Ha. unfold Stat_fields. cbn [In]. tauto. }
+  assert (Hib : Stat_ignored_defence b <= Stat_ignored_defence b').
+  { rewrite Forall_forall in Hb. apply Hb. unfold Stat_fields. cbn [In]. tauto. }
+  assert (P1 : 0 <= (Stat_final_damage_multiplier a' - Stat_final_damage_multiplier a) * (100 + Stat_final_damage_multiplier b)) by (apply Qmult_le_0_compat; lra).
+  assert (P2 : 0 <= (Stat_final_damage_multiplier b' - Stat_final_damage_multiplier b) * (100 + Stat_final_damage_multiplier a')) by (apply Qmult_le_0_compat; lra).
+  assert (P3 : 0 <= (Stat_ignored_defence a' - Stat_ignored_defence a) * (100 - Stat_ignored_defence b)) by (apply Qmult_le_0_compat; lra).
+  assert (P4 : 0 <= (Stat_ignored_defence b' - Stat_ignored_defence b) * (100 - Stat_ignored_defence a')) by (apply Qmult_le_0_compat; lra).
+  unfold Stat_fields in *. split_forall Ha. split_forall Hb.
+  unfold Stat_add. repeat (apply Forall_cons; [cbn; lra|]). apply Forall_nil.
+Qed.
+
+Lemma stat_of_le l l' : (forall k, sget k l <= sget k l') -> stat_le (stat_of l) (stat_of l').
+Proof. intros H. unfold stat_le, Stat_fields, stat_of. repeat (apply Forall_cons; [cbn; apply H|]). apply Forall_nil. Qed.
+
+Lemma stat_of_ok l : -100 <= sget "final_damage_multiplier" l -> sget "ignored_defence" l <= 100 -> stat_ok (stat_of l).
+Proof. intros H1 H2. split; [exact H1|exact H2]. Qed.
+
+Lemma sget_single_le key q q' : q <= q' -> forall k, sget k [(key, q)] <= sget k [(key, q')].
+Proof. intros H k. unfold sget, lookup. cbn [find fst snd]. destruct (String.eqb key k); [exact H|apply Qle_refl]. Qed.
+
+Lemma fdm_stat_le q q' : q <= q' -> stat_le (fdm_stat q) (fdm_stat q').
+Proof. intros H. apply stat_of_le. apply sget_single_le. exact H. Qed.
+Lemma ied_stat_le q q' : q <= q' -> stat_le (ied_stat q) (ied_stat q').
+Proof. intros H. apply stat_of_le. apply sget_single_le. exact H. Qed.
+Lemma fdm_stat_ok q : -100 <= q -> stat_ok (fdm_stat q).
+Proof. intros H. apply stat_of_ok; [exact H|]. unfold Qle. cbn. lia. Qed.
+Lemma ied_stat_ok q : q <= 100 -> stat_ok (ied_stat q).
+Proof. intros H. apply stat_of_ok; [|exact H]. unfold Qle. cbn. lia. Qed.
+
+Definition pair_ok (s s' : Stat) : Prop := stat_ok s /\ stat_ok s' /\ stat_le s s'.
+
+Lemma pair_add s s' a a' : pair_ok s s' -> pair_ok a a' -> pair_ok (Stat_add s a) (Stat_add s' a').
+Proof.
+  intros (H1 & H2 & H3) (A1 & A2 & A3). split; [|split]; try (apply Stat_add_ok; assumption). apply Stat_add_le; assumption.
+Qed.
+
+Lemma step_value_le c c' st s s' t t' : step_scale_ok st = true ->
+  (0 <= c_v_improvement c)%Z -> (c_v_improvement c <= c_v_improvement c')%Z ->
+  (0 <= c_hexa_improvement c)%Z -> (c_hexa_improvement c <= c_hexa_improvement c')%Z -> (c_hexa_improvement c' <= max_hexa_improvement)%Z ->
+  pair_ok s s' -> step_value c (Some s) st = Some t -> step_value c' (Some s') st = Some t' -> pair_ok t t'.
+Proof.
+  intros Hk V0 V1 X0 X1 X2 Hp E E'. destruct st as [scale listed|listed|inc]; cbn [step_value step_scale_ok] in *.
+  - injection E as <-. injection E' as <-. apply Qle_bool_le in Hk.
+    assert (L0 : (0 <= v_level c listed)%Z) by (unfold v_level; destruct listed; lia).
+    assert (L1 : (v_level c listed <= v_level c' listed)%Z) by (unfold v_level; destruct listed; lia).
+    destruct (v_improvement_mono scale _ _ Hk L1) as [F1 F2].
+    apply pair_add; [apply pair_add; [exact Hp|]|].
+    + assert (0 <= gen_v_fdm scale (v_level c listed)).
+      { unfold gen_v_fdm. apply Qmult_le_0_compat; [exact Hk|apply inject_Z_nonneg; exact L0]. }
+      split; [|split]; [apply fdm_stat_ok; lra|apply fdm_stat_ok; lra|apply fdm_stat_le; exact F1].
+    + split; [|split]; [apply ied_stat_ok; apply gen_v_ied_bounds|apply ied_stat_ok; apply gen_v_ied_bounds|apply ied_stat_le; exact F2].
+  - assert (L0 : (0 <= hexa_level c listed)%Z) by (unfold hexa_level; destruct listed; lia).
+    assert (L1 : (hexa_level c listed <= hexa_level c' listed)%Z) by (unfold hexa_level; destruct listed; lia).
+    assert (L2 : (hexa_level c' listed <= max_hexa_improvement)%Z) by (unfold hexa_level; destruct listed; [lia|unfold max_hexa_improvement; lia]).
+    destruct (hexa_table_mono _ _ L0 L1 L2) as (a & b & Ea & Eb & Ha & Hab).
+    rewrite Ea in E. rewrite Eb in E'. injection E as <-. injection E' as <-.
+    apply pair_add; [exact Hp|]. split; [|split]; [apply fdm_stat_ok; lra|apply fdm_stat_ok; lra|apply fdm_stat_le; exact Hab].
+  - injection E as <-. injection E' as <-. apply andb_prop in Hk. destruct Hk as [K1 K2]. apply Qle_bool_le in K1. apply Qle_bool_le in K2.
+    apply pair_add; [exact Hp|]. split; [|split]; try (apply stat_of_ok; assumption). apply stat_le_refl.
+Qed.
+
+Lemma fold_step_none c l : fold_left (step_value c) l None = None.
+Proof. induction l as [|st r IH]; cbn [fold_left]; [reflexivity|exact IH]. Qed.
+
+Lemma fold_step_le c c' l : forallb step_scale_ok l = true ->
+  (0 <= c_v_improvement c)%Z -> (c_v_improvement c <= c_v_improvement c')%Z ->
+  (0 <= c_hexa_improvement c)%Z -> (c_hexa_improvement c <= c_hexa_improvement c')%Z -> (c_hexa_improvement c' <= max_hexa_improvement)%Z ->
+  forall s s' t t', pair_ok s s' -> fold_left (step_value c) l (Some s) = Some t -> fold_left (step_value c') l (Some s') = Some t' -> pair_ok t t'.
+Proof.
+  intros Hk V0 V1 X0 X1 X2. induction l as [|st r IH]; cbn [forallb fold_left] in *; intros s s' t t' Hp E E'.
+  - injection E as <-. injection E' as <-. exact Hp.
+  - apply andb_prop in Hk. destruct Hk as [Hst Hr].
+    destruct (step_value c (Some s) st) as [u|] eqn:Eu; [|rewrite fold_step_none in E; discriminate].
+    destruct (step_value c' (Some s') st) as [u'|] eqn:Eu'; [|rewrite fold_step_none in E'; discriminate].
+    apply (IH Hr u u' t t'); try assumption. eapply step_value_le; eassumption.
+Qed.
+
+Lemma bounded_sound c fid f B v : bounded_above fid B = true -> nth_error formulas fid = Some f -> in_range c f = true ->
+  fval c fid = Some v -> v <= B.
+Proof.
+  unfold bounded_above, fval. intros Hb En Hr Ev. rewrite En in Hb, Ev. apply andb_prop in Hb. destruct Hb as [Ho Hall].
+  rewrite forallb_forall in Hall. unfold in_range in Hr. apply andb_prop in Hr. destruct Hr as [R1 R2].
+  apply Z.leb_le in R1. apply Z.leb_le in R2.
+  assert (Hin : In (eff_level c f) (zspan (f_lo f) (f_hi f + 1))) by (apply zspan_In; lia).
+  specialize (Hall _ Hin). unfold at_level in *. rewrite (only_var_eval _ _ Ho (env_of (c_vars c)) no_env) in Ev. rewrite Ev in Hall.
+  apply Qle_bool_le. exact Hall.
+Qed.
+
+(* HEADLINE (built stat blocks): on the documented configuration space, raising any level axis -- the skill's own level,
+   the v-enhancement level 0..60, the hexa-enhancement level 0..30, passive, combat orders -- never lowers any field of the
+   modifier / stat block of a built component (base block, + v improvement, + hexa improvement, + hyper skills) *)
+Theorem built_block_mono p b d d' vars : profile_of (b_job b) = Some p -> In b sblocks ->
+  doc_ok d -> doc_ok d' -> doc_le d d' -> env_nonneg (env_of vars) ->
+  forall s s', block_value (doc_cfg p d vars) b = Some s -> block_value (doc_cfg p d' vars) b = Some s' -> stat_le s s'.
+Proof.
+  intros Hp Hb Hok Hok' Hle Hr s s' E E'.
+  pose proof (proj1 (forallb_forall _ _) all_blocks_ok b Hb) as Hk. unfold block_ok in Hk.
+  apply andb_prop in Hk. destruct Hk as [Hk Hnd]. apply andb_prop in Hk. destruct Hk as [Hst Hbase].
+  pose proof (proj1 (forallb_forall _ _) all_blocks_scoped b Hb) as Hs. unfold block_scoped in Hs. rewrite Hp in Hs.
+  rewrite forallb_forall in Hs. rewrite forallb_forall in Hbase. pose proof (profile_of_In _ _ Hp) as Hin.
+  unfold block_value in E, E'.
+  destruct (block_base (doc_cfg p d vars) b) as [s0|] eqn:E0; [|rewrite fold_step_none in E; discriminate].
+  destruct (block_base (doc_cfg p d' vars) b) as [s0'|] eqn:E0'; [|rewrite fold_step_none in E'; discriminate].
+  assert (Hused : forall k fid, In (k, BF fid) (b_base b) -> fid_used p fid = true).
+  { intros k fid Hi. apply Hs. unfold blk_fids. apply in_flat_map. exists (k, BF fid). split; [exact Hi|left; reflexivity]. }
+  assert (Hrange : forall c0, (c0 = d \/ c0 = d') -> forall k fid f, In (k, BF fid) (b_base b) -> nth_error formulas fid = Some f ->
+            in_range (doc_cfg p c0 vars) f = true).
+  { intros c0 Hc0 k fid f Hi En. pose proof (Hused k fid Hi) as Hu. unfold fid_used in Hu. rewrite En in Hu.
+    apply documented_in_range; try assumption; [eapply nth_error_In; eassumption|destruct Hc0; subst; assumption]. }
+  assert (Hbound : forall c0, (c0 = d \/ c0 = d') -> forall s1, block_base (doc_cfg p c0 vars) b = Some s1 -> stat_ok s1).
+  { intros c0 Hc0 s1 E1. unfold block_base in E1.
+    destruct (base_fields (fval (doc_cfg p c0 vars)) (b_base b)) as [kv|] eqn:Ekv; [|discriminate]. injection E1 as <-.
+    apply stat_of_ok.
+    - refine (base_fields_bound (fun x => -100 <= x) (fval (doc_cfg p c0 vars)) (b_base b) kv "final_damage_multiplier" _ _ Ekv);
+        [unfold Qle; cbn; lia|].
+      intros b0 Hi x Ex. pose proof (Hbase _ Hi) as Hc. unfold base_const_ok in Hc. cbn [fst snd] in Hc. destruct b0 as [fid|q]; cbn [base_value] in Ex.
+      + rewrite String.eqb_refl in Hc. cbn in Hc. rewrite andb_false_r in Hc. discriminate.
+      + rewrite String.eqb_refl in Hc. injection Ex as <-. apply Qle_bool_le. exact Hc.
+    - refine (base_fields_bound (fun x => x <= 100) (fval (doc_cfg p c0 vars)) (b_base b) kv "ignored_defence" _ _ Ekv);
+        [unfold Qle; cbn; lia|].
+      intros b0 Hi x Ex. pose proof (Hbase _ Hi) as Hc. unfold base_const_ok in Hc. cbn [fst snd] in Hc. destruct b0 as [fid|q]; cbn [base_value] in Ex.
+      + rewrite String.eqb_refl in Hc. apply andb_prop in Hc. destruct Hc as [_ Hbd].
+        destruct (nth_error formulas fid) as [f|] eqn:En; [|unfold fval in Ex; rewrite En in Ex; discriminate].
+        eapply bounded_sound; try eassumption. eapply Hrange; eassumption.
+      + assert (Hne : String.eqb "ignored_defence" "final_damage_multiplier" = false) by reflexivity. rewrite Hne, String.eqb_refl in Hc.
+        injection Ex as <-. apply Qle_bool_le. exact Hc. }
+  assert (Hp0 : pair_ok s0 s0').
+  { split; [|split]; [apply (Hbound d (or_introl eq_refl) _ E0)|apply (Hbound d' (or_intror eq_refl) _ E0')|].
+    unfold block_base in E0, E0'.
+    destruct (base_fields (fval (doc_cfg p d vars)) (b_base b)) as [kv|] eqn:Ekv; [|discriminate]. injection E0 as <-.
+    destruct (base_fields (fval (doc_cfg p d' vars)) (b_base b)) as [kv'|] eqn:Ekv'; [|discriminate]. injection E0' as <-.
+    apply stat_of_le. refine (base_fields_sget _ _ (b_base b) kv kv' _ Ekv Ekv').
+    intros k b0 Hi x x' Ex Ex'. destruct b0 as [fid|q]; cbn [base_value] in Ex, Ex'.
+    - pose proof (Hbase _ Hi) as Hc. unfold base_const_ok in Hc. cbn [fst snd] in Hc.
+      apply andb_prop in Hc. destruct Hc as [Hc _]. apply andb_prop in Hc. destruct Hc as [Hfd _].
+      exact (fid_mono p d d' vars fid Hin (Hused k fid Hi) Hfd Hok Hok' Hle Hr x x' Ex Ex').
+    - injection Ex as <-. injection Ex' as <-. apply Qle_refl. }
+  destruct Hok as (_ & _ & _ & _ & _ & Hvi & Hhi). destruct Hok' as (_ & _ & _ & _ & _ & Hvi' & Hhi').
+  destruct Hle as (_ & _ & _ & _ & _ & Lvi & Lhi).
+  refine (proj2 (proj2 (fold_step_le (doc_cfg p d vars) (doc_cfg p d' vars) (b_steps b) Hst _ _ _ _ _ s0 s0' s s' Hp0 E E')));
+    unfold doc_cfg; cbn [c_v_improvement c_hexa_improvement]; lia.
+Qed.
+
+(* ------------------------------------------------------------------------------------------------ names and the replacement rule *)
+Lemma gen_excl_is_shipped : gen_excl = shipped_excl.
+Proof. reflexivity. Qed.
+
+Lemma all_names_unique : forallb (fun p => nodupb (p_components p) && nodupb (map fst (p_mastery p)) && replacement_names_ok p) profiles = true.
+Proof. vm_compute. reflexivity. Qed.
+
+Theorem names_unique p levels : In p profiles -> NoDup (p_components p) /\ NoDup (built_names p levels).
+Proof.
+  intros Hp. pose proof (proj1 (forallb_forall _ _) all_names_unique p Hp) as H.
+  apply andb_prop in H. destruct H as [H _]. apply andb_prop in H. destruct H as [H _]. apply nodupb_NoDup in H.
+  split; [exact H|]. unfold built_names. apply exclude_hexa_NoDup. exact H.
+Qed.
+
+(* the replacement rule of the shipped profiles, for EVERY level map with non-negative levels *)
+Theorem exclude_hexa_iff p levels low high : In p profiles -> In (low, high) (p_mastery p) -> (0 <= level_of levels 0 high)%Z ->
+  In high (p_components p) /\ (In low (built_names p levels) <-> level_of levels 0 high = 0%Z).
+Proof.
+  intros Hp Hm Hl. pose proof (proj1 (forallb_forall _ _) all_names_unique p Hp) as H.
+  apply andb_prop in H. destruct H as [H Hr]. apply andb_prop in H. destruct H as [_ Hk]. apply nodupb_NoDup in Hk.
+  unfold replacement_names_ok in Hr. rewrite forallb_forall in Hr. specialize (Hr _ Hm). cbn [fst snd] in Hr.
+  apply andb_prop in Hr. destruct Hr as [R1 R2]. apply mem_In in R1. apply mem_In in R2.
+  split; [exact R2|]. unfold built_names. rewrite gen_excl_is_shipped. apply exclude_hexa_iff_shipped; assumption.
+Qed.
+
+(* everything that is not a replaced lower tier -- in particular every 6th-job replacement itself -- is always built *)
+Theorem other_names_kept p levels n : In n (p_components p) -> ~ In n (map fst (p_mastery p)) -> In n (built_names p levels).
+Proof. intros Hn Hk. unfold built_names. rewrite gen_excl_is_shipped. apply exclude_hexa_keeps_others; assumption. Qed.
+
+(* the level map the providers build is monotone in each of its three axes, read key by key *)
+Theorem provider_levels_mono p v v' h h' m m' k : (v <= v')%Z -> (h <= h')%Z -> (m <= m')%Z ->
+  opt_le (lookup k (skill_levels_of p v h m)) (lookup k (skill_levels_of p v' h' m')).
+Proof.
+  intros Hv Hh Hm. pose proof (lookup_le _ _ (skill_levels_of_le p v v' h h' m m' Hv Hh Hm) k) as H. unfold opt_le.
+  destruct (lookup k (skill_levels_of p v h m)), (lookup k (skill_levels_of p v' h' m')); exact H.
+Qed.
+
+(* ------------------------------------------------------------------------------------------------ non-vacuity *)
+Open Scope Z_scope.
+Example adele_profile_shipped : exists p, profile_of "adele" = Some p /\ In ("디바이드", "디바이드 VI") (p_mastery p).
+Proof. eexists. split; [reflexivity|]. vm_compute. tauto. Qed.
+
+(* a concrete figure really moves: adele 샤드 damage at effective level 0, 30, 32 *)
+Example shard_values :
+  exists g p, In g figures /\ g_damage g = true /\ profile_of (g_job g) = Some p /\ g_skill g = "샤드" /\
+  figure_value (doc_cfg p (mkDoc 30 1 0 0 0 60 0) []) g = Some (360#1)%Q /\
+  figure_value (doc_cfg p (mkDoc 30 1 30 0 2 60 0) []) g = Some (366#1)%Q.
+Proof.
+  pose (g := nth 1 (filter (fun g => String.eqb (g_skill g) "샤드" && String.eqb (g_job g) "adele") figures) (nth 0 figures (mkFig 0 "" "" [] (BC 0) [] false))).
+  exists (nth 0 (filter (fun g => String.eqb (g_skill g) "샤드" && String.eqb (g_job g) "adele") figures) (nth 0 figures (mkFig 0 "" "" [] (BC 0) [] false))).
+  eexists. vm_compute. repeat split; try reflexivity. tauto.
+Qed.
